@@ -40,7 +40,7 @@ func (g *tplGen) dataFrame() (val, map[string]fnDecl) {
 		{"xs", vAnySlice(xs...)}, {"e", vAnySlice()}, {"m", vMap(kv{"k", vStr("kv")})}, {"m1", vMap(kv{"only", vInt(7)})},
 		{"s2", vStr("hi")}, {"nest", vAnySlice(vAnySlice(vInt(1), vInt(2)), vAnySlice(vInt(3)))}, {"n", vNil()},
 		{"strs", vStrSlice("p", "q")}, {"ints", vIntSlice(4, 5, 6)}, {"i64a", vI64(1)}, {"arr", vIntArray3(7, 8, 9)},
-		{"fr", vStr(g.fragName())},
+		{"fr", vStr(g.fragName())}, {"strue", vStr("true")}, {"sfalse", vStr("false")}, {"tree", treeData()},
 	}
 	for _, id := range sortedKeys(fns) {
 		kvs = append(kvs, kv{id, val{nil, J{"fn": id}}})
@@ -57,7 +57,12 @@ func (g *tplGen) fragName() string {
 
 func (g *tplGen) cond() string {
 	r := g.r
-	switch r.n(12) {
+	switch r.n(14) {
+	case 12:
+		// a condition holds when its value PRINTS as "true", whatever Go type carries it
+		return r.pick([]string{"${strue}", "${sfalse}", "${'true'}", "tr${'ue'}", "${strue}${''}", "${b ? strue : sfalse}"})
+	case 13:
+		return r.pick([]string{"${strue}", "${sfalse}"})
 	case 0:
 		return "${t}"
 	case 1:
@@ -259,6 +264,10 @@ func (g *tplGen) fragRef() string {
 	if r.p(10) {
 		return r.pick([]string{"nofrag", "${nope}", "${fr}x"})
 	}
+	if g.inLoop > 0 && r.p(30) {
+		// the name changes from one rendering of the host to the next within ONE execution
+		return r.pick([]string{"f${i}", "f${i}${''}", "${'f'}${i}", "f${i > 1 ? 2 : 1}"})
+	}
 	if r.p(25) {
 		// names computed from the data: a pure block, and literal text mixed with blocks (f1 / f2 according to `a`)
 		return r.pick([]string{"${fr}", "${fr}", "f${a}", "f${a}${''}", "${'f'}${a}"})
@@ -374,6 +383,22 @@ func genRenderCase(r *rng, hostile bool) (*renderCase, map[string]int) {
 	}
 	g.frags, g.noFrag = all, nfr == 0
 	main := g.file(true)
+	// data-bounded RECURSION (12%): a fragment that re-enters itself through :insert / :replace on an element that also
+	// carries with / if / range — every level runs the same nodes, so anything kept per node must be per invocation
+	if r.p(12) {
+		switch r.n(3) {
+		case 0: // countdown: with, then if, then insert of itself
+			defs = append(defs, "<template"+g.attr("define", "rec")+"><i"+g.attr("text", "${d}")+">o</i><b"+g.attr("with", "d := ${d - 1}")+g.attr("if", "${d > 0}")+g.attr("insert", "rec")+">x</b><u"+g.attr("else", "true")+">.</u></template>")
+			main += "<div" + g.attr("with", "d := ${a + 1}") + g.attr("insert", "rec") + ">x</div>"
+		case 1: // tree: range + insert of itself, chain after it
+			defs = append(defs, "<template"+g.attr("define", "tree")+"><s"+g.attr("text", "${n.name}")+">o</s><x"+g.attr("range", "_, n : n.kids")+g.attr("insert", "tree")+">x</x><em"+g.attr("if", "${len(n.kids) > 0}")+">+</em><em"+g.attr("else", "true")+">-</em></template>")
+			main += "<ul><li" + g.attr("range", "i, n : tree") + g.attr("insert", "tree") + ">x</li></ul>"
+		default: // replace of itself inside the selected branch of a chain
+			defs = append(defs, "<template"+g.attr("define", "tr2")+"><b"+g.attr("if", "${len(n.kids) > 0}")+"><q"+g.attr("range", "_, n : n.kids")+g.attr("replace", "tr2")+">x</q></b><i"+g.attr("else", "true")+g.attr("text", "${n.name}")+">o</i></template>")
+			main += "<p" + g.attr("range", "_, n : tree") + g.attr("replace", "tr2") + ">x</p>"
+		}
+		g.count("recursive_fragment")
+	}
 	rc := &renderCase{Tpl: "main.html", Cfg: cfg}
 	switch r.n(4) {
 	case 0: // same file, before
